@@ -1,13 +1,1019 @@
-//! C15: generators and executor (see DESIGN.md section 4, C15).
+//! C15: ECDH, ECDH-ES / ECDH-1PU and crypto_box — generators and executor (DESIGN.md section 4, C15).
+//!
+//! Case kinds
+//! * `c15:kdf`  — one key agreement (mode `es` | `1pu`) run on BOTH sides through `kms::derive_key_ecdh_es/1pu`
+//!   (`receive = false` with the sender's view of the keys, `receive = true` with the recipient's view), the raw
+//!   Diffie-Hellman outputs (`KeyExchange::key_exchange_bytes`, both directions), `LocalKey::to_key_exchange`, and a
+//!   list of single-input perturbations.
+//! * `c15:box`  — `crypto_box` / `crypto_box_open` with a list of open attempts on altered inputs.
+//! * `c15:seal` — sealed boxes: a deterministic sealed box assembled from the public parts (ephemeral key given in the
+//!   case), `crypto_box_seal_open`, the library's own randomised `crypto_box_seal`, open attempts on altered inputs.
+//!
+//! The ORACLE is independent of the Lean model and of the code under test: SHA-256 (FIPS 180-4) and BLAKE2b (RFC 7693)
+//! are implemented below from the standards; the Concat-KDF input is assembled here from RFC 7518 §4.6.2 / the
+//! ECDH-1PU draft §2.3.
+use crate::canon::{jvalue, value_from_json};
 use crate::rng::Rng;
-use serde_json::{json, Value};
+use aries_askar::crypto::kdf::KeyExchange;
+use aries_askar::kms::{
+    crypto_box, crypto_box_open, crypto_box_seal, crypto_box_seal_open, derive_key_ecdh_1pu, derive_key_ecdh_es, KeyAlg,
+    LocalKey,
+};
+use aries_askar::{Error, ErrorKind};
+use serde_json::{json, Map, Value};
+use std::str::FromStr;
 
-/// generated cases for this property (each a JSON object with "kind": "c15…")
-pub fn gen(_r: &mut Rng, _thorough: bool, _count: Option<usize>) -> Vec<Value> {
-    vec![]
+// ------------------------------------------------------------------------------------------------------------------
+// independent primitives (written from the standards)
+
+fn sha256(msg: &[u8]) -> [u8; 32] {
+    // FIPS 180-4 §4.2.2: first 32 bits of the fractional parts of the cube roots of the first 64 primes
+    const K: [u32; 64] = [
+        0x428a2f98, 0x71374491, 0xb5c0fbcf, 0xe9b5dba5, 0x3956c25b, 0x59f111f1, 0x923f82a4, 0xab1c5ed5, 0xd807aa98, 0x12835b01,
+        0x243185be, 0x550c7dc3, 0x72be5d74, 0x80deb1fe, 0x9bdc06a7, 0xc19bf174, 0xe49b69c1, 0xefbe4786, 0x0fc19dc6, 0x240ca1cc,
+        0x2de92c6f, 0x4a7484aa, 0x5cb0a9dc, 0x76f988da, 0x983e5152, 0xa831c66d, 0xb00327c8, 0xbf597fc7, 0xc6e00bf3, 0xd5a79147,
+        0x06ca6351, 0x14292967, 0x27b70a85, 0x2e1b2138, 0x4d2c6dfc, 0x53380d13, 0x650a7354, 0x766a0abb, 0x81c2c92e, 0x92722c85,
+        0xa2bfe8a1, 0xa81a664b, 0xc24b8b70, 0xc76c51a3, 0xd192e819, 0xd6990624, 0xf40e3585, 0x106aa070, 0x19a4c116, 0x1e376c08,
+        0x2748774c, 0x34b0bcb5, 0x391c0cb3, 0x4ed8aa4a, 0x5b9cca4f, 0x682e6ff3, 0x748f82ee, 0x78a5636f, 0x84c87814, 0x8cc70208,
+        0x90befffa, 0xa4506ceb, 0xbef9a3f7, 0xc67178f2,
+    ];
+    let mut h: [u32; 8] = [0x6a09e667, 0xbb67ae85, 0x3c6ef372, 0xa54ff53a, 0x510e527f, 0x9b05688c, 0x1f83d9ab, 0x5be0cd19];
+    let mut m = msg.to_vec();
+    m.push(0x80);
+    while m.len() % 64 != 56 {
+        m.push(0);
+    }
+    m.extend_from_slice(&((msg.len() as u64) * 8).to_be_bytes());
+    for blk in m.chunks(64) {
+        let mut w = [0u32; 64];
+        for t in 0..16 {
+            w[t] = u32::from_be_bytes([blk[4 * t], blk[4 * t + 1], blk[4 * t + 2], blk[4 * t + 3]]);
+        }
+        for t in 16..64 {
+            let s0 = w[t - 15].rotate_right(7) ^ w[t - 15].rotate_right(18) ^ (w[t - 15] >> 3);
+            let s1 = w[t - 2].rotate_right(17) ^ w[t - 2].rotate_right(19) ^ (w[t - 2] >> 10);
+            w[t] = s1.wrapping_add(w[t - 7]).wrapping_add(s0).wrapping_add(w[t - 16]);
+        }
+        let (mut a, mut b, mut c, mut d, mut e, mut f, mut g, mut hh) = (h[0], h[1], h[2], h[3], h[4], h[5], h[6], h[7]);
+        for t in 0..64 {
+            let s1 = e.rotate_right(6) ^ e.rotate_right(11) ^ e.rotate_right(25);
+            let ch = (e & f) ^ (!e & g);
+            let t1 = hh.wrapping_add(s1).wrapping_add(ch).wrapping_add(K[t]).wrapping_add(w[t]);
+            let s0 = a.rotate_right(2) ^ a.rotate_right(13) ^ a.rotate_right(22);
+            let maj = (a & b) ^ (a & c) ^ (b & c);
+            let t2 = s0.wrapping_add(maj);
+            hh = g;
+            g = f;
+            f = e;
+            e = d.wrapping_add(t1);
+            d = c;
+            c = b;
+            b = a;
+            a = t1.wrapping_add(t2);
+        }
+        for (i, v) in [a, b, c, d, e, f, g, hh].iter().enumerate() {
+            h[i] = h[i].wrapping_add(*v);
+        }
+    }
+    let mut out = [0u8; 32];
+    for i in 0..8 {
+        out[4 * i..4 * i + 4].copy_from_slice(&h[i].to_be_bytes());
+    }
+    out
 }
 
-/// run one case against the real code; returns {"out": …, "oracle": […], "feat": {…}}
-pub fn exec(_case: &Value, _tag: &str) -> Value {
-    json!({"out": {"err": "not implemented"}})
+fn blake2b(out_len: usize, msg: &[u8]) -> Vec<u8> {
+    const IV: [u64; 8] = [
+        0x6a09e667f3bcc908, 0xbb67ae8584caa73b, 0x3c6ef372fe94f82b, 0xa54ff53a5f1d36f1, 0x510e527fade682d1, 0x9b05688c2b3e6c1f,
+        0x1f83d9abfb41bd6b, 0x5be0cd19137e2179,
+    ];
+    const SIGMA: [[usize; 16]; 10] = [
+        [0, 1, 2, 3, 4, 5, 6, 7, 8, 9, 10, 11, 12, 13, 14, 15],
+        [14, 10, 4, 8, 9, 15, 13, 6, 1, 12, 0, 2, 11, 7, 5, 3],
+        [11, 8, 12, 0, 5, 2, 15, 13, 10, 14, 3, 6, 7, 1, 9, 4],
+        [7, 9, 3, 1, 13, 12, 11, 14, 2, 6, 5, 10, 4, 0, 15, 8],
+        [9, 0, 5, 7, 2, 4, 10, 15, 14, 1, 11, 12, 6, 8, 3, 13],
+        [2, 12, 6, 10, 0, 11, 8, 3, 4, 13, 7, 5, 15, 14, 1, 9],
+        [12, 5, 1, 15, 14, 13, 4, 10, 0, 7, 6, 3, 9, 2, 8, 11],
+        [13, 11, 7, 14, 12, 1, 3, 9, 5, 0, 15, 4, 8, 6, 2, 10],
+        [6, 15, 14, 9, 11, 3, 0, 8, 12, 2, 13, 7, 1, 4, 10, 5],
+        [10, 2, 8, 4, 7, 6, 1, 5, 15, 11, 9, 14, 3, 12, 13, 0],
+    ];
+    fn g(v: &mut [u64; 16], a: usize, b: usize, c: usize, d: usize, x: u64, y: u64) {
+        v[a] = v[a].wrapping_add(v[b]).wrapping_add(x);
+        v[d] = (v[d] ^ v[a]).rotate_right(32);
+        v[c] = v[c].wrapping_add(v[d]);
+        v[b] = (v[b] ^ v[c]).rotate_right(24);
+        v[a] = v[a].wrapping_add(v[b]).wrapping_add(y);
+        v[d] = (v[d] ^ v[a]).rotate_right(16);
+        v[c] = v[c].wrapping_add(v[d]);
+        v[b] = (v[b] ^ v[c]).rotate_right(63);
+    }
+    let mut h = IV;
+    h[0] ^= 0x0101_0000 ^ (out_len as u64);
+    let n_blocks = if msg.is_empty() { 1 } else { (msg.len() + 127) / 128 };
+    for i in 0..n_blocks {
+        let mut blk = [0u8; 128];
+        let part = &msg[128 * i..msg.len().min(128 * (i + 1))];
+        blk[..part.len()].copy_from_slice(part);
+        let last = i + 1 == n_blocks;
+        let t: u128 = if last { msg.len() as u128 } else { 128 * (i as u128 + 1) };
+        let mut m = [0u64; 16];
+        for k in 0..16 {
+            m[k] = u64::from_le_bytes(blk[8 * k..8 * k + 8].try_into().unwrap());
+        }
+        let mut v = [0u64; 16];
+        v[..8].copy_from_slice(&h);
+        v[8..].copy_from_slice(&IV);
+        v[12] ^= t as u64;
+        v[13] ^= (t >> 64) as u64;
+        if last {
+            v[14] = !v[14];
+        }
+        for r in 0..12 {
+            let s = &SIGMA[r % 10];
+            g(&mut v, 0, 4, 8, 12, m[s[0]], m[s[1]]);
+            g(&mut v, 1, 5, 9, 13, m[s[2]], m[s[3]]);
+            g(&mut v, 2, 6, 10, 14, m[s[4]], m[s[5]]);
+            g(&mut v, 3, 7, 11, 15, m[s[6]], m[s[7]]);
+            g(&mut v, 0, 5, 10, 15, m[s[8]], m[s[9]]);
+            g(&mut v, 1, 6, 11, 12, m[s[10]], m[s[11]]);
+            g(&mut v, 2, 7, 8, 13, m[s[12]], m[s[13]]);
+            g(&mut v, 3, 4, 9, 14, m[s[14]], m[s[15]]);
+        }
+        for k in 0..8 {
+            h[k] ^= v[k] ^ v[k + 8];
+        }
+    }
+    let mut out = vec![];
+    for w in h.iter() {
+        out.extend_from_slice(&w.to_le_bytes());
+    }
+    out.truncate(out_len);
+    out
+}
+
+/// known answers of the two hand-written primitives (FIPS 180-4 "abc", RFC 7693 appendix A); checked once per process
+fn primitives_ok() -> bool {
+    static OK: once_cell::sync::Lazy<bool> = once_cell::sync::Lazy::new(|| {
+        hex::encode(sha256(b"abc")) == "ba7816bf8f01cfea414140de5dae2223b00361a396177a9cb410ff61f20015ad"
+            && hex::encode(sha256(b"abcdbcdecdefdefgefghfghighijhijkijkljklmklmnlmnomnopnopq"))
+                == "248d6a61d20638b8e5c026930c3e6039a33ce45964ff2167f6ecedd419db06c1"
+            && hex::encode(blake2b(64, b"abc"))
+                == "ba80a53f981c4d0d6a2797b69f12f6e94c212f14685ac4b74b12bb6fdbffa2d17d87c5392aab792dc252d5de4533cc9518d38aa8dbf1925ab92386edd4009923"
+    });
+    *OK
+}
+
+/// RFC 7518 §4.6.2 "Datalen || Data"
+fn datalen_data(x: &[u8]) -> Vec<u8> {
+    let mut v = (x.len() as u32).to_be_bytes().to_vec();
+    v.extend_from_slice(x);
+    v
+}
+
+/// Concat KDF (SP 800-56A §5.8.2.1, one round, SHA-256) with the JOSE OtherInfo:
+/// AlgorithmID ‖ PartyUInfo ‖ PartyVInfo ‖ SuppPubInfo (keydatalen in bits [‖ Datalen‖tag for ECDH-1PU key wrapping]) ‖ SuppPrivInfo (empty)
+fn ref_concat_kdf(z: &[u8], alg: &[u8], apu: &[u8], apv: &[u8], key_len: usize, tag: Option<&[u8]>) -> Vec<u8> {
+    let mut m = 1u32.to_be_bytes().to_vec();
+    m.extend_from_slice(z);
+    m.extend(datalen_data(alg));
+    m.extend(datalen_data(apu));
+    m.extend(datalen_data(apv));
+    m.extend_from_slice(&((key_len * 8) as u32).to_be_bytes());
+    if let Some(t) = tag {
+        if !t.is_empty() {
+            m.extend(datalen_data(t));
+        }
+    }
+    sha256(&m)[..key_len].to_vec()
+}
+
+// ------------------------------------------------------------------------------------------------------------------
+// helpers
+
+fn err_kind_name(k: ErrorKind) -> &'static str {
+    match k {
+        ErrorKind::Backend => "Backend",
+        ErrorKind::Busy => "Busy",
+        ErrorKind::Custom => "Custom",
+        ErrorKind::Duplicate => "Duplicate",
+        ErrorKind::Encryption => "Encryption",
+        ErrorKind::Input => "Input",
+        ErrorKind::NotFound => "NotFound",
+        ErrorKind::Unexpected => "Unexpected",
+        ErrorKind::Unsupported => "Unsupported",
+    }
+}
+
+fn jres<T>(r: &Result<T, Error>, f: impl Fn(&T) -> Value) -> Value {
+    match r {
+        Ok(v) => f(v),
+        Err(e) => json!({"err": err_kind_name(e.kind())}),
+    }
+}
+
+fn is_err(v: &Value) -> bool {
+    v.get("err").is_some()
+}
+
+const CURVES: [&str; 4] = ["x25519", "p256", "p384", "k256"];
+const TARGETS: [&str; 8] = ["a128gcm", "a256gcm", "a128cbchs256", "a256cbchs512", "a128kw", "a256kw", "c20p", "xc20p"];
+
+fn target_len(t: &str) -> Option<usize> {
+    match t {
+        "a128gcm" | "a128kw" => Some(16),
+        "a256gcm" | "a128cbchs256" | "a256kw" | "c20p" | "xc20p" => Some(32),
+        "a256cbchs512" => Some(64),
+        _ => None,
+    }
+}
+
+fn curve_zlen(c: &str) -> Option<usize> {
+    match c {
+        "x25519" | "p256" | "k256" => Some(32),
+        "p384" => Some(48),
+        _ => None,
+    }
+}
+
+/// a key of the case: {"c": alg, "sk": hex} (key pair) or {"c": alg, "pk": hex} (public key only).
+/// Returns (the key as its owner holds it, the key as everybody else sees it).
+fn build_key(k: &Value) -> Result<(LocalKey, LocalKey), Error> {
+    let alg = KeyAlg::from_str(k["c"].as_str().unwrap_or(""))?;
+    if let Some(sk) = k.get("sk") {
+        let full = LocalKey::from_secret_bytes(alg, &value_from_json(sk))?;
+        let public = LocalKey::from_public_bytes(alg, full.to_public_bytes()?.as_ref())?;
+        Ok((full, public))
+    } else {
+        let pk = value_from_json(&k["pk"]);
+        Ok((LocalKey::from_public_bytes(alg, &pk)?, LocalKey::from_public_bytes(alg, &pk)?))
+    }
+}
+
+fn has_secret(k: &Value) -> bool {
+    k.get("sk").is_some()
+}
+
+fn bump(feat: &mut Map<String, Value>, k: &str) {
+    let n = feat.get(k).and_then(|v| v.as_u64()).unwrap_or(0);
+    feat.insert(k.to_string(), json!(n + 1));
+}
+
+fn fail(oracle: &mut Vec<Value>, sig: String, detail: Value) {
+    oracle.push(json!({"sig": sig, "detail": detail}));
+}
+
+// ------------------------------------------------------------------------------------------------------------------
+// c15:kdf
+
+struct KdfArgs {
+    mode: String,
+    target: String,
+    eph: Value,
+    snd: Value,
+    rcp: Value,
+    alg: Vec<u8>,
+    apu: Vec<u8>,
+    apv: Vec<u8>,
+    tag: Vec<u8>,
+}
+
+impl KdfArgs {
+    fn of(case: &Value) -> KdfArgs {
+        KdfArgs {
+            mode: case["mode"].as_str().unwrap_or("es").to_string(),
+            target: case["target"].as_str().unwrap_or("").to_string(),
+            eph: case["eph"].clone(),
+            snd: case["snd"].clone(),
+            rcp: case["rcp"].clone(),
+            alg: value_from_json(&case["alg"]),
+            apu: value_from_json(&case["apu"]),
+            apv: value_from_json(&case["apv"]),
+            tag: value_from_json(&case["tag"]),
+        }
+    }
+
+    fn with(&self, p: &Value) -> KdfArgs {
+        let mut a = KdfArgs {
+            mode: self.mode.clone(),
+            target: self.target.clone(),
+            eph: self.eph.clone(),
+            snd: self.snd.clone(),
+            rcp: self.rcp.clone(),
+            alg: self.alg.clone(),
+            apu: self.apu.clone(),
+            apv: self.apv.clone(),
+            tag: self.tag.clone(),
+        };
+        match p["f"].as_str().unwrap_or("") {
+            "alg" => a.alg = value_from_json(&p["v"]),
+            "apu" => a.apu = value_from_json(&p["v"]),
+            "apv" => a.apv = value_from_json(&p["v"]),
+            "tag" => a.tag = value_from_json(&p["v"]),
+            "eph" => a.eph = p["v"].clone(),
+            "snd" => a.snd = p["v"].clone(),
+            "rcp" => a.rcp = p["v"].clone(),
+            "target" => a.target = p["v"].as_str().unwrap_or("").to_string(),
+            _ => {}
+        }
+        a
+    }
+
+    /// the derived key's secret bytes on one side
+    fn derive(&self, receive: bool) -> Result<Vec<u8>, Error> {
+        let target = KeyAlg::from_str(&self.target)?;
+        let (eph_full, eph_pub) = build_key(&self.eph)?;
+        let (rcp_full, rcp_pub) = build_key(&self.rcp)?;
+        // the sender holds eph (and snd) secrets and rcp's public key; the recipient the converse
+        let (eph, rcp) = if receive { (&eph_pub, &rcp_full) } else { (&eph_full, &rcp_pub) };
+        let key = if self.mode == "1pu" {
+            let (snd_full, snd_pub) = build_key(&self.snd)?;
+            let snd = if receive { &snd_pub } else { &snd_full };
+            derive_key_ecdh_1pu(target, eph, snd, rcp, &self.alg, &self.apu, &self.apv, &self.tag, receive)?
+        } else {
+            derive_key_ecdh_es(target, eph, rcp, &self.alg, &self.apu, &self.apv, receive)?
+        };
+        Ok(key.to_secret_bytes()?.to_vec())
+    }
+
+    /// raw Diffie-Hellman outputs [Ze] or [Ze, Zs] as computed by `own` secrets against `peer` publics
+    fn dh(&self, receive: bool) -> Result<Vec<Vec<u8>>, Error> {
+        let (eph_full, eph_pub) = build_key(&self.eph)?;
+        let (rcp_full, rcp_pub) = build_key(&self.rcp)?;
+        let mut out = vec![];
+        if receive {
+            out.push(rcp_full.key_exchange_bytes(&eph_pub)?.to_vec());
+        } else {
+            out.push(eph_full.key_exchange_bytes(&rcp_pub)?.to_vec());
+        }
+        if self.mode == "1pu" {
+            let (snd_full, snd_pub) = build_key(&self.snd)?;
+            if receive {
+                out.push(rcp_full.key_exchange_bytes(&snd_pub)?.to_vec());
+            } else {
+                out.push(snd_full.key_exchange_bytes(&rcp_pub)?.to_vec());
+            }
+        }
+        Ok(out)
+    }
+}
+
+fn jkey(r: &Result<Vec<u8>, Error>) -> Value {
+    jres(r, |k| json!(hex::encode(k)))
+}
+
+fn exec_kdf(case: &Value) -> Value {
+    let a = KdfArgs::of(case);
+    let mut oracle = vec![];
+    let mut feat = Map::new();
+    if !primitives_ok() {
+        fail(&mut oracle, "harness: reference SHA-256/BLAKE2b self test failed".into(), json!(null));
+    }
+    let send = a.derive(false);
+    let recv = a.derive(true);
+    let z_s = a.dh(false);
+    let z_r = a.dh(true);
+    // LocalKey::to_key_exchange(target, eph → rcp)
+    let kx = (|| -> Result<Vec<u8>, Error> {
+        let target = KeyAlg::from_str(&a.target)?;
+        let (eph_full, _) = build_key(&a.eph)?;
+        let (_, rcp_pub) = build_key(&a.rcp)?;
+        Ok(eph_full.to_key_exchange(target, &rcp_pub)?.to_secret_bytes()?.to_vec())
+    })();
+    let perturbs: Vec<Value> = case["perturb"].as_array().cloned().unwrap_or_default();
+    let perturbed: Vec<Result<Vec<u8>, Error>> = perturbs.iter().map(|p| a.with(p).derive(false)).collect();
+
+    let jz = |z: &Result<Vec<Vec<u8>>, Error>| jres(z, |zs| json!(zs.iter().map(hex::encode).collect::<Vec<_>>()));
+    let out = json!({
+        "send": jkey(&send), "recv": jkey(&recv), "z_send": jz(&z_s), "z_recv": jz(&z_r), "kx": jkey(&kx),
+        "perturbed": perturbed.iter().map(jkey).collect::<Vec<_>>(),
+    });
+
+    // ---- oracle (property, judged independently of the model) ----
+    let ctx = format!("{}:{}:{}", a.mode, a.eph["c"].as_str().unwrap_or("?"), a.target);
+    let keys = if a.mode == "1pu" { vec![&a.eph, &a.snd, &a.rcp] } else { vec![&a.eph, &a.rcp] };
+    let curve = a.eph["c"].as_str().unwrap_or("");
+    let same_curve = keys.iter().all(|k| k["c"].as_str() == Some(curve)) && curve_zlen(curve).is_some();
+    let all_secret = keys.iter().all(|k| has_secret(k));
+    let well_formed = same_curve && all_secret;
+    bump(&mut feat, &format!("mode_{}", a.mode));
+    bump(&mut feat, &format!("curve_{}", curve));
+    bump(&mut feat, &format!("target_{}", a.target));
+    for (n, l) in [("alg", a.alg.len()), ("apu", a.apu.len()), ("apv", a.apv.len()), ("tag", a.tag.len())] {
+        let class = match l { 0 => "0", 1 => "1", 2..=124 => "2_124", 125..=127 => "125_127", 128 => "128", 129..=1023 => "129_1023", _ => "1k" };
+        bump(&mut feat, &format!("len_{}_{}", n, class));
+    }
+    // Diffie-Hellman is symmetric
+    if well_formed {
+        match (&z_s, &z_r) {
+            (Ok(zs), Ok(zr)) => {
+                if zs != zr {
+                    fail(&mut oracle, format!("dh:{}:asymmetric", curve), json!({"send": jz(&z_s), "recv": jz(&z_r)}));
+                }
+                if zs.iter().any(|z| Some(z.len()) != curve_zlen(curve)) {
+                    fail(&mut oracle, format!("dh:{}:length", curve), jz(&z_s));
+                }
+                bump(&mut feat, "dh_symmetric_checked");
+            }
+            _ => fail(&mut oracle, format!("dh:{}:error-on-valid-keys", curve), json!({"send": jz(&z_s), "recv": jz(&z_r)})),
+        }
+    }
+    // expected result from the specification
+    let klen = target_len(&a.target);
+    let expect: Option<Result<Vec<u8>, &str>> = if !well_formed {
+        None
+    } else {
+        match klen {
+            None => Some(Err("Unsupported")),
+            Some(n) if n > 32 => Some(Err("Unsupported")), // single SHA-256 round
+            Some(_) if a.mode == "1pu" && a.tag.len() > 128 => Some(Err("Unsupported")),
+            Some(n) => match &z_s {
+                Ok(zs) => Some(Ok(ref_concat_kdf(&zs.concat(), &a.alg, &a.apu, &a.apv, n, if a.mode == "1pu" { Some(&a.tag) } else { None }))),
+                Err(_) => None,
+            },
+        }
+    };
+    for (side, got) in [("send", &send), ("recv", &recv)] {
+        match (&expect, got) {
+            (Some(Ok(k)), Ok(g)) => {
+                if k != g {
+                    fail(&mut oracle, format!("kdf:{}:{}:key-differs-from-spec", ctx, side), json!({"spec": hex::encode(k), "got": hex::encode(g)}));
+                }
+                bump(&mut feat, "spec_key_checked");
+            }
+            (Some(Ok(_)), Err(e)) => {
+                let class = if a.mode == "1pu" && (125..=128).contains(&a.tag.len()) { "tag125-128" } else { "other" };
+                fail(&mut oracle, format!("kdf:{}:{}:expected-key→{}:{}", a.mode, side, err_kind_name(e.kind()), class),
+                     json!({"ctx": ctx, "tag_len": a.tag.len()}));
+            }
+            (Some(Err(k)), Ok(_)) => fail(&mut oracle, format!("kdf:{}:{}:expected-{}→key", ctx, side, k), json!(null)),
+            (Some(Err(k)), Err(e)) => {
+                if *k != err_kind_name(e.kind()) {
+                    fail(&mut oracle, format!("kdf:{}:{}:expected-{}→{}", ctx, side, k, err_kind_name(e.kind())), json!(null));
+                }
+                bump(&mut feat, "guard_error_checked");
+            }
+            (None, _) => {}
+        }
+    }
+    if let (Ok(s), Ok(r)) = (&send, &recv) {
+        if s != r {
+            fail(&mut oracle, format!("kdf:{}:sides-disagree", ctx), json!({"send": hex::encode(s), "recv": hex::encode(r)}));
+        }
+        bump(&mut feat, "both_sides_ok");
+    }
+    if let Some(x) = case.get("expect").and_then(|v| v.as_str()) {
+        if jkey(&send) != json!(x) {
+            fail(&mut oracle, format!("kdf:{}:published-vector-mismatch", ctx), json!({"expect": x, "got": jkey(&send)}));
+        }
+        bump(&mut feat, "published_vector");
+    }
+    // every single perturbation changes the key
+    if let Ok(base) = &send {
+        for (p, r) in perturbs.iter().zip(perturbed.iter()) {
+            if let Ok(k) = r {
+                let f = p["f"].as_str().unwrap_or("?");
+                // a different target algorithm of the same length, or of another length, still changes keydatalen or nothing:
+                // only same-length targets derive the same bytes, and that is what the specification says (keydatalen only)
+                let same_len_target = f == "target" && target_len(p["v"].as_str().unwrap_or("")) == klen;
+                if k == base && !same_len_target {
+                    fail(&mut oracle, format!("kdf:{}:perturb-{}:key-unchanged", ctx, f), json!({"p": p}));
+                }
+                if k[..] != base[..] { bump(&mut feat, &format!("perturb_{}_changed", f)); }
+            }
+        }
+    }
+    // to_key_exchange = raw Z when the sizes agree
+    if well_formed {
+        if let (Some(n), Ok(zs)) = (klen, &z_s) {
+            match &kx {
+                Ok(k) => {
+                    if n != zs[0].len() || k != &zs[0] {
+                        fail(&mut oracle, format!("kx:{}:wrong-bytes", ctx), json!({"kx": hex::encode(k), "z": hex::encode(&zs[0])}));
+                    }
+                    bump(&mut feat, "kx_ok");
+                }
+                Err(_) => {
+                    if n == zs[0].len() {
+                        fail(&mut oracle, format!("kx:{}:error-on-matching-size", ctx), jkey(&kx));
+                    }
+                }
+            }
+        }
+    }
+    json!({"out": out, "oracle": oracle, "feat": feat})
+}
+
+// ------------------------------------------------------------------------------------------------------------------
+// c15:box / c15:seal
+
+fn flip_bit(b: &[u8], bit: usize) -> Vec<u8> {
+    let mut v = b.to_vec();
+    if !v.is_empty() {
+        let i = bit % (v.len() * 8);
+        v[i / 8] ^= 1 << (i % 8);
+    }
+    v
+}
+
+/// an altered open attempt: which of (ciphertext, nonce, recipient key pair, sender public key) is replaced
+fn apply_mut(m: &Value, ct: &[u8], nonce: &[u8]) -> (Vec<u8>, Vec<u8>) {
+    let mut c = ct.to_vec();
+    let mut n = nonce.to_vec();
+    if let Some(b) = m.get("flip").and_then(|v| v.as_u64()) { c = flip_bit(&c, b as usize); }
+    if let Some(k) = m.get("take").and_then(|v| v.as_u64()) { c.truncate(k as usize); }
+    if let Some(x) = m.get("append") { c.extend(value_from_json(x)); }
+    if let Some(x) = m.get("raw") { c = value_from_json(x); }
+    if let Some(b) = m.get("nflip").and_then(|v| v.as_u64()) { n = flip_bit(&n, b as usize); }
+    if let Some(x) = m.get("nonce") { n = value_from_json(x); }
+    (c, n)
+}
+
+fn jbytes(r: &Result<Vec<u8>, Error>) -> Value {
+    jres(r, |b| jvalue(b))
+}
+
+fn exec_box(case: &Value) -> Value {
+    let mut oracle = vec![];
+    let mut feat = Map::new();
+    let msg = value_from_json(&case["msg"]);
+    let nonce = value_from_json(&case["nonce"]);
+    let boxed = (|| -> Result<Vec<u8>, Error> {
+        let (snd_full, _) = build_key(&case["snd"])?;
+        let (_, rcp_pub) = build_key(&case["rcp"])?;
+        crypto_box(&rcp_pub, &snd_full, &msg, &nonce)
+    })();
+    let open_with = |rcp: &Value, snd: &Value, ct: &[u8], n: &[u8]| -> Result<Vec<u8>, Error> {
+        let (rcp_full, _) = build_key(rcp)?;
+        let (_, snd_pub) = build_key(snd)?;
+        Ok(crypto_box_open(&rcp_full, &snd_pub, ct, n)?.to_vec())
+    };
+    let ct: Vec<u8> = boxed.as_ref().map(|b| b.clone()).unwrap_or_default();
+    let opened = open_with(&case["rcp"], &case["snd"], &ct, &nonce);
+    let muts: Vec<Value> = case["muts"].as_array().cloned().unwrap_or_default();
+    let mut mut_out = vec![];
+    for m in &muts {
+        let (c, n) = apply_mut(m, &ct, &nonce);
+        let rcp = m.get("rcp").unwrap_or(&case["rcp"]);
+        let snd = m.get("snd").unwrap_or(&case["snd"]);
+        let r = open_with(rcp, snd, &c, &n);
+        if boxed.is_ok() && (c != ct || n != nonce || m.get("rcp").is_some() || m.get("snd").is_some()) {
+            if r.is_ok() {
+                fail(&mut oracle, format!("box:altered-input-opens:{}", mut_class(m)), json!({"mut": m}));
+            }
+            bump(&mut feat, &format!("mut_{}", mut_class(m)));
+        }
+        mut_out.push(jbytes(&r));
+    }
+    // every single-bit flip of the box
+    let mut all_bits = json!(null);
+    if case["allbits"].as_bool() == Some(true) && boxed.is_ok() {
+        let mut opened_bits = vec![];
+        for bit in 0..ct.len() * 8 {
+            if open_with(&case["rcp"], &case["snd"], &flip_bit(&ct, bit), &nonce).is_ok() {
+                opened_bits.push(bit);
+            }
+        }
+        if !opened_bits.is_empty() {
+            fail(&mut oracle, "box:bit-flip-opens".into(), json!({"bits": opened_bits}));
+        }
+        bump(&mut feat, "allbits");
+        all_bits = json!(opened_bits);
+    }
+    let valid = case["snd"]["c"] == "x25519" && case["rcp"]["c"] == "x25519" && has_secret(&case["snd"]) && has_secret(&case["rcp"]) && nonce.len() == 24;
+    if valid {
+        match (&boxed, &opened) {
+            (Ok(b), Ok(o)) => {
+                if o != &msg { fail(&mut oracle, "box:roundtrip-differs".into(), json!({"got": hex::encode(o)})); }
+                if b.len() != msg.len() + 16 { fail(&mut oracle, "box:length".into(), json!({"len": b.len()})); }
+                bump(&mut feat, "roundtrip_ok");
+            }
+            _ => fail(&mut oracle, "box:error-on-valid-input".into(), json!({"box": jbytes(&boxed), "open": jbytes(&opened)})),
+        }
+    } else if boxed.is_ok() {
+        fail(&mut oracle, "box:invalid-input-accepted".into(), json!(null));
+    }
+    if let Some(x) = case.get("expect").and_then(|v| v.as_str()) {
+        if jbytes(&boxed) != json!(x) { fail(&mut oracle, "box:published-vector-mismatch".into(), json!({"got": jbytes(&boxed)})); }
+        bump(&mut feat, "published_vector");
+    }
+    bump(&mut feat, &format!("msg_len_{}", len_class(msg.len())));
+    let out = json!({"box": jbytes(&boxed), "open": jbytes(&opened), "muts": mut_out, "allbits": all_bits});
+    json!({"out": out, "oracle": oracle, "feat": feat})
+}
+
+fn len_class(n: usize) -> &'static str {
+    match n { 0 => "0", 1 => "1", 2..=15 => "2_15", 16 => "16", 17..=63 => "17_63", 64 => "64", 65..=255 => "65_255", _ => "256p" }
+}
+
+fn mut_class(m: &Value) -> String {
+    let mut ks: Vec<&str> = m.as_object().map(|o| o.keys().map(|k| k.as_str()).collect()).unwrap_or_default();
+    ks.sort();
+    ks.join("+")
+}
+
+fn exec_seal(case: &Value) -> Value {
+    let mut oracle = vec![];
+    let mut feat = Map::new();
+    if !primitives_ok() {
+        fail(&mut oracle, "harness: reference SHA-256/BLAKE2b self test failed".into(), json!(null));
+    }
+    let msg = value_from_json(&case["msg"]);
+    // (a) deterministic sealed box assembled from its documented parts: epk ‖ crypto_box(m, nonce = BLAKE2b-24(epk ‖ rpk), rpk, esk)
+    let sealed = (|| -> Result<Vec<u8>, Error> {
+        if let Some(ct) = case.get("ct") { return Ok(value_from_json(ct)); }
+        let (eph_full, _) = build_key(&case["eph"])?;
+        let (_, rcp_pub) = build_key(&case["rcp"])?;
+        let epk = eph_full.to_public_bytes()?.to_vec();
+        let rpk = rcp_pub.to_public_bytes()?.to_vec();
+        let nonce = blake2b(24, &[&epk[..], &rpk[..]].concat());
+        let mut out = epk.clone();
+        out.extend(crypto_box(&rcp_pub, &eph_full, &msg, &nonce)?);
+        Ok(out)
+    })();
+    let open_with = |rcp: &Value, ct: &[u8]| -> Result<Vec<u8>, Error> {
+        let (rcp_full, _) = build_key(rcp)?;
+        Ok(crypto_box_seal_open(&rcp_full, ct)?.to_vec())
+    };
+    let ct: Vec<u8> = sealed.as_ref().map(|b| b.clone()).unwrap_or_default();
+    let opened = open_with(&case["rcp"], &ct);
+    // (b) the library's own randomised seal: length, opens, and opens BY PARTS with the independently computed nonce
+    let rnd = (|| -> Result<(usize, Vec<u8>, Vec<u8>), Error> {
+        let (rcp_full, rcp_pub) = build_key(&case["rcp"])?;
+        let s = crypto_box_seal(&rcp_pub, &msg)?;
+        let o = crypto_box_seal_open(&rcp_full, &s)?.to_vec();
+        let parts = if s.len() >= 32 {
+            let epk = LocalKey::from_public_bytes(KeyAlg::X25519, &s[..32])?;
+            let rpk = rcp_pub.to_public_bytes()?.to_vec();
+            let nonce = blake2b(24, &[&s[..32], &rpk[..]].concat());
+            crypto_box_open(&rcp_full, &epk, &s[32..], &nonce)?.to_vec()
+        } else { vec![] };
+        Ok((s.len(), o, parts))
+    })();
+    let muts: Vec<Value> = case["muts"].as_array().cloned().unwrap_or_default();
+    let mut mut_out = vec![];
+    for m in &muts {
+        let (c, _) = apply_mut(m, &ct, &[]);
+        let rcp = m.get("rcp").unwrap_or(&case["rcp"]);
+        let r = open_with(rcp, &c);
+        if sealed.is_ok() && (c != ct || m.get("rcp").is_some()) {
+            if r.is_ok() { fail(&mut oracle, format!("seal:altered-input-opens:{}", mut_class(m)), json!({"mut": m})); }
+            bump(&mut feat, &format!("mut_{}", mut_class(m)));
+        }
+        mut_out.push(jbytes(&r));
+    }
+    let mut all_bits = json!(null);
+    if case["allbits"].as_bool() == Some(true) && sealed.is_ok() {
+        let mut opened_bits = vec![];
+        for bit in 0..ct.len() * 8 {
+            if open_with(&case["rcp"], &flip_bit(&ct, bit)).is_ok() { opened_bits.push(bit); }
+        }
+        if !opened_bits.is_empty() { fail(&mut oracle, "seal:bit-flip-opens".into(), json!({"bits": opened_bits})); }
+        bump(&mut feat, "allbits");
+        all_bits = json!(opened_bits);
+    }
+    let given_ct = case.get("ct").is_some();
+    let valid = case["rcp"]["c"] == "x25519" && has_secret(&case["rcp"]) && (given_ct || (case["eph"]["c"] == "x25519" && has_secret(&case["eph"])));
+    if valid && !given_ct {
+        match (&sealed, &opened) {
+            (Ok(s), Ok(o)) => {
+                if o != &msg { fail(&mut oracle, "seal:parts-box-does-not-open-to-message".into(), json!({"got": hex::encode(o)})); }
+                if s.len() != msg.len() + 48 { fail(&mut oracle, "seal:length".into(), json!({"len": s.len()})); }
+                bump(&mut feat, "roundtrip_ok");
+            }
+            _ => fail(&mut oracle, "seal:error-on-valid-input".into(), json!({"sealed": jbytes(&sealed), "open": jbytes(&opened)})),
+        }
+        match &rnd {
+            Ok((l, o, p)) => {
+                if *l != msg.len() + 48 { fail(&mut oracle, "seal:random:length".into(), json!({"len": l})); }
+                if o != &msg { fail(&mut oracle, "seal:random:roundtrip-differs".into(), json!(null)); }
+                if p != &msg { fail(&mut oracle, "seal:random:layout-or-nonce-differs-from-libsodium".into(), json!(null)); }
+                bump(&mut feat, "random_seal_ok");
+            }
+            Err(e) => fail(&mut oracle, format!("seal:random:error-on-valid-input:{}", err_kind_name(e.kind())), json!(null)),
+        }
+    }
+    if given_ct && case["expect_open"].as_bool() == Some(true) {
+        if opened.is_err() { fail(&mut oracle, "seal:published-vector-does-not-open".into(), jbytes(&opened)); }
+        bump(&mut feat, "published_vector");
+    }
+    bump(&mut feat, &format!("msg_len_{}", len_class(msg.len())));
+    let jr = match &rnd {
+        Ok((l, o, p)) => json!({"len": l, "open": jvalue(o), "parts": jvalue(p)}),
+        Err(e) => json!({"err": err_kind_name(e.kind())}),
+    };
+    let out = json!({"sealed": jbytes(&sealed), "open": jbytes(&opened), "random": jr, "muts": mut_out, "allbits": all_bits});
+    json!({"out": out, "oracle": oracle, "feat": feat})
+}
+
+// ------------------------------------------------------------------------------------------------------------------
+// generators
+
+fn hexs(b: &[u8]) -> Value {
+    json!(hex::encode(b))
+}
+
+/// a secret key for `curve` (valid scalar: non-zero, below the group order)
+fn gen_sk(r: &mut Rng, curve: &str) -> Vec<u8> {
+    let n = curve_zlen(curve).unwrap_or(32);
+    let special = r.below(12);
+    let mut sk = r.bytes(n);
+    if curve == "x25519" {
+        match special {
+            0 => sk = vec![0xff; 32],                 // all bits set (clamping matters)
+            1 => { sk = vec![0; 32]; sk[0] = 7; }      // only the bits that clamping clears
+            _ => {}
+        }
+    } else {
+        if sk[0] == 0xff { sk[0] = 0xfe; }             // below the order of all three curves
+        match special {
+            0 => { sk = vec![0; n]; sk[n - 1] = 1; }   // 1·G
+            1 => { sk = vec![0; n]; sk[n - 1] = 2; }
+            _ => {}
+        }
+    }
+    sk
+}
+
+fn gen_key(r: &mut Rng, curve: &str) -> Value {
+    json!({"c": curve, "sk": hex::encode(gen_sk(r, curve))})
+}
+
+/// byte strings of every length class
+fn gen_field(r: &mut Rng, ascii: &[&str]) -> Value {
+    match r.below(14) {
+        0 => json!(""),
+        1 => hexs(&r.bytes(1)),
+        2 => json!({"fill": r.below(256), "salt": r.below(7), "len": 127}),
+        3 => json!({"fill": r.below(256), "salt": r.below(7), "len": 128}),
+        4 => json!({"fill": r.below(256), "salt": r.below(7), "len": 129}),
+        5 => json!({"fill": r.below(256), "salt": 1 + r.below(7), "len": 1024}),
+        6 => json!({"fill": r.below(256), "salt": r.below(7), "len": 255 + r.below(3)}),
+        7 => { let n = r.below(40); hexs(&r.bytes(n)) }
+        8 => hexs(&[0, 0, 0, 0]),                       // looks like an empty length-prefixed field
+        _ => hexs(r.pick(ascii).as_bytes()),
+    }
+}
+
+fn gen_tag(r: &mut Rng) -> Value {
+    match r.below(16) {
+        0 | 1 | 2 => json!(""),
+        3 => hexs(&r.bytes(1)),
+        4 => hexs(&r.bytes(16)),
+        5 => hexs(&r.bytes(32)),
+        6 => json!({"fill": r.below(256), "salt": 3, "len": 124}),
+        7 => json!({"fill": r.below(256), "salt": 3, "len": 125}),
+        8 => json!({"fill": r.below(256), "salt": 3, "len": 127}),
+        9 => json!({"fill": r.below(256), "salt": 3, "len": 128}),
+        10 => json!({"fill": r.below(256), "salt": 3, "len": 129}),
+        11 => json!({"fill": r.below(256), "salt": 3, "len": 1024}),
+        12 => json!({"fill": r.below(256), "salt": 5, "len": 100 + r.below(40)}),
+        _ => { let n = 1 + r.below(64); hexs(&r.bytes(n)) }
+    }
+}
+
+fn perturb_bytes(r: &mut Rng, v: &Value) -> Value {
+    let mut b = value_from_json(v);
+    match r.below(4) {
+        0 if !b.is_empty() => { let i = r.below(b.len() * 8); b[i / 8] ^= 1 << (i % 8); }
+        1 if !b.is_empty() => { b.pop(); }
+        2 => b.push(0),
+        _ => b.insert(0, r.below(256) as u8),
+    }
+    hexs(&b)
+}
+
+const ALGS: [&str; 6] = ["A128GCM", "A256GCM", "ECDH-ES+A128KW", "ECDH-1PU+A128KW", "ECDH-1PU+XC20PKW", "XC20P"];
+const PARTIES: [&str; 6] = ["Alice", "Bob", "Bob and Charlie", "did:example:123#key-1", "A", ""];
+
+fn gen_kdf(r: &mut Rng, id: String) -> Value {
+    let mode = if r.chance(1, 2) { "es" } else { "1pu" };
+    let curve = *r.pick(&CURVES);
+    let target = if r.chance(1, 14) { *r.pick(&["ed25519", "x25519", "p256", "bls12381g1"]) } else { *r.pick(&TARGETS) };
+    let eph = gen_key(r, curve);
+    let snd = gen_key(r, curve);
+    let rcp = gen_key(r, curve);
+    let alg = gen_field(r, &ALGS);
+    let apu = gen_field(r, &PARTIES);
+    let apv = gen_field(r, &PARTIES);
+    let tag = if mode == "1pu" { gen_tag(r) } else { json!("") };
+    let mut case = json!({"id": id, "kind": "c15:kdf", "mode": mode, "target": target, "eph": eph, "snd": snd, "rcp": rcp,
+        "alg": alg, "apu": apu, "apv": apv, "tag": tag});
+    // malformed stream: mismatched curves, public-only keys, keys that cannot do DH, odd public keys
+    match r.below(16) {
+        0 => { let other = *r.pick(&CURVES); case["rcp"] = gen_key(r, other); }
+        1 => { let other = *r.pick(&CURVES); case["eph"] = gen_key(r, other); }
+        2 => { case["snd"] = json!({"c": "ed25519", "sk": hex::encode(r.bytes(32))}); }
+        3 => { let k = json!({"c": "ed25519", "sk": hex::encode(r.bytes(32))}); case["eph"] = k.clone(); case["rcp"] = k; }
+        4 => {
+            // an arbitrary X25519 public key (low order, non-canonical, high bit set …) as recipient
+            let mut pk = r.bytes(32);
+            match r.below(6) {
+                0 => pk = vec![0; 32],
+                1 => { pk = vec![0; 32]; pk[0] = 1; }
+                2 => { pk = vec![0xff; 32]; }                         // ≥ p and high bit set
+                3 => { pk = vec![0xff; 32]; pk[0] = 0xee; pk[31] = 0x7f; } // p + 1
+                4 => { pk[31] |= 0x80; }
+                _ => {}
+            }
+            case["eph"] = gen_key(r, "x25519");
+            case["snd"] = gen_key(r, "x25519");
+            case["rcp"] = json!({"c": "x25519", "pk": hex::encode(pk)});
+        }
+        5 => { case["eph"] = json!({"c": "x25519", "pk": hex::encode(r.bytes(32))}); case["snd"] = gen_key(r, "x25519"); case["rcp"] = gen_key(r, "x25519"); }
+        _ => {}
+    }
+    // single-input perturbations
+    let mut ps = vec![];
+    for f in ["alg", "apu", "apv"] {
+        let v = perturb_bytes(r, &case[f]);
+        ps.push(json!({"f": f, "v": v}));
+    }
+    if mode == "1pu" {
+        let v = perturb_bytes(r, &case["tag"]);
+        if value_from_json(&v).len() <= 124 { ps.push(json!({"f": "tag", "v": v})); }
+        let c = case["snd"]["c"].as_str().unwrap_or("x25519").to_string();
+        if curve_zlen(&c).is_some() { ps.push(json!({"f": "snd", "v": gen_key(r, &c)})); }
+    }
+    for f in ["eph", "rcp"] {
+        let c = case[f]["c"].as_str().unwrap_or("x25519").to_string();
+        if curve_zlen(&c).is_some() { ps.push(json!({"f": f, "v": gen_key(r, &c)})); }
+    }
+    // moving a byte across a field boundary must change the key (length prefixes)
+    {
+        let mut a = value_from_json(&case["apu"]);
+        let b = value_from_json(&case["apv"]);
+        if !b.is_empty() && a.len() < 600 && b.len() < 600 {
+            a.push(b[0]);
+            // expressed as two single perturbations applied one after the other is not possible; use the pair form
+            ps.push(json!({"f": "apu", "v": hexs(&a)}));
+        }
+    }
+    ps.push(json!({"f": "target", "v": *r.pick(&TARGETS)}));
+    case["perturb"] = json!(ps);
+    case
+}
+
+fn gen_box(r: &mut Rng, id: String, thorough: bool) -> Value {
+    let msg_len = match r.below(10) { 0 => 0, 1 => 1, 2 => 15, 3 => 16, 4 => 17, 5 => 31 + r.below(3), 6 => 63 + r.below(3), 7 => if thorough { 1000 } else { 200 }, _ => r.below(48) };
+    let msg = r.bytes(msg_len);
+    let snd = gen_key(r, "x25519");
+    let rcp = gen_key(r, "x25519");
+    let nonce = r.bytes(24);
+    let mut muts = vec![];
+    let boxed_len = msg_len + 16;
+    for _ in 0..3 { muts.push(json!({"flip": r.below(boxed_len * 8)})); }
+    muts.push(json!({"flip": 0}));
+    muts.push(json!({"flip": boxed_len * 8 - 1}));
+    muts.push(json!({"flip": 127}));                  // last tag bit
+    if msg_len > 0 { muts.push(json!({"flip": 128})); } // first ciphertext bit
+    muts.push(json!({"take": r.below(boxed_len)}));
+    muts.push(json!({"take": boxed_len - 1}));
+    muts.push(json!({"append": hex::encode(r.bytes(1))}));
+    muts.push(json!({"nflip": r.below(192)}));
+    let nl = *r.pick(&[0usize, 12, 23, 25, 32]);
+    muts.push(json!({"nonce": hex::encode(r.bytes(nl))}));
+    muts.push(json!({"rcp": gen_key(r, "x25519")}));
+    muts.push(json!({"snd": gen_key(r, "x25519")}));
+    let rl = r.below(41);
+    muts.push(json!({"raw": hex::encode(r.bytes(rl))}));
+    let mut case = json!({"id": id, "kind": "c15:box", "snd": snd, "rcp": rcp, "msg": hex::encode(&msg), "nonce": hex::encode(&nonce),
+        "muts": muts, "allbits": msg_len <= 20});
+    match r.below(14) {
+        0 => { let nl = *r.pick(&[0usize, 8, 12, 23, 25]); case["nonce"] = json!(hex::encode(r.bytes(nl))); }
+        1 => { case["snd"] = json!({"c": "x25519", "pk": hex::encode(r.bytes(32))}); }
+        2 => { case["rcp"] = json!({"c": "ed25519", "sk": hex::encode(r.bytes(32))}); }
+        3 => { case["snd"] = gen_key(r, "p256"); }
+        _ => {}
+    }
+    case
+}
+
+fn gen_seal(r: &mut Rng, id: String, thorough: bool) -> Value {
+    let msg_len = match r.below(8) { 0 => 0, 1 => 1, 2 => 16, 3 => 32, 4 => if thorough { 700 } else { 150 }, _ => r.below(40) };
+    let msg = r.bytes(msg_len);
+    let eph = gen_key(r, "x25519");
+    let rcp = gen_key(r, "x25519");
+    let total = msg_len + 48;
+    let mut muts = vec![];
+    for _ in 0..3 { muts.push(json!({"flip": r.below(total * 8)})); }
+    muts.push(json!({"flip": r.below(256)}));          // inside the ephemeral key
+    muts.push(json!({"flip": 256 + r.below(128)}));    // inside the tag
+    muts.push(json!({"take": r.below(total)}));
+    muts.push(json!({"take": 47}));
+    muts.push(json!({"take": 48}));
+    muts.push(json!({"append": "00"}));
+    muts.push(json!({"rcp": gen_key(r, "x25519")}));
+    let rl = r.below(60);
+    muts.push(json!({"raw": hex::encode(r.bytes(rl))}));
+    let mut case = json!({"id": id, "kind": "c15:seal", "eph": eph, "rcp": rcp, "msg": hex::encode(&msg), "muts": muts, "allbits": msg_len <= 8});
+    match r.below(12) {
+        0 => { case["rcp"] = json!({"c": "x25519", "pk": hex::encode(r.bytes(32))}); }
+        1 => { case["rcp"] = gen_key(r, "k256"); }
+        _ => {}
+    }
+    case
+}
+
+/// published vectors: RFC 7518 appendix C, RFC 8037 A.6 keys with askar's expected ECDH-ES output, ECDH-1PU draft
+/// appendices A and B, askar's libsodium crypto_box vector and sealed-box vector
+fn corpus() -> Vec<Value> {
+    let hx = |s: &str| hex::encode(s.as_bytes());
+    let p256 = |sk: &str| json!({"c": "p256", "sk": sk});
+    let x = |sk: &str| json!({"c": "x25519", "sk": sk});
+    let alice = "1e776fed9663b3f91ef28f735d8a378aaf98afc49ec08e6faea774a40bc43ea8";
+    let bob = "5449836690d75caf29f0dd029ddb31b3ddb8aba9d2d515c5012465e817d4a9dc";
+    let eph = "d3f3716913d4310a0026de741b3f18893afc8114f0c84682ba677e313a13988a";
+    vec![
+        json!({"id": "v-rfc7518-appC", "kind": "c15:kdf", "mode": "es", "target": "a128gcm", "eph": p256(eph), "snd": p256(alice), "rcp": p256(bob),
+            "alg": hx("A128GCM"), "apu": hx("Alice"), "apv": hx("Bob"), "tag": "", "perturb": [], "expect": "56aa8deaf8236d205c2228cd71a7101a"}),
+        json!({"id": "v-1pu-appA", "kind": "c15:kdf", "mode": "1pu", "target": "a256gcm", "eph": p256(eph), "snd": p256(alice), "rcp": p256(bob),
+            "alg": hx("A256GCM"), "apu": hx("Alice"), "apv": hx("Bob"), "tag": "", "perturb": [],
+            "expect": "6caf13723d14850ad4b42cd6dde935bffd2fff00a9ba70de05c203a5e1722ca7"}),
+        json!({"id": "v-1pu-appB", "kind": "c15:kdf", "mode": "1pu", "target": "a128kw",
+            "eph": x("c7c115647e05c24ebbdff994ba39e5889a12acbcf4cd8cf3096a791945f67dcf"),
+            "snd": x("8bd2ae1614b3101b22bf73ca54be75d7938276ca906a2e678ff165cdf930e635"),
+            "rcp": x("d600e2ae5febfd8dfea946b75971e0117aeb1079e0593854ddcf738fd036b818"),
+            "alg": hx("ECDH-1PU+A128KW"), "apu": hx("Alice"), "apv": hx("Bob and Charlie"),
+            "tag": "1cb6f87d3966f2ca469a28f74723acda02780e91cce21855470745fe119bdd64", "perturb": [],
+            "expect": "df4c37a0668306a11e3d6b0074b5d8df"}),
+        json!({"id": "v-es-rfc8037", "kind": "c15:kdf", "mode": "es", "target": "a256gcm",
+            "eph": x("77076d0a7318a57d3c16c17251b26645df4c2f87ebc0992ab177fba51db92c2a"),
+            "snd": x("77076d0a7318a57d3c16c17251b26645df4c2f87ebc0992ab177fba51db92c2a"),
+            "rcp": json!({"c": "x25519", "pk": "de9edb7d7b7dc1b4d35b61c2ece435373f8343c85b78674dadfc7e146f882b4f"}),
+            "alg": hx("A256GCM"), "apu": hx("Alice"), "apv": hx("Bob"), "tag": "", "perturb": [],
+            "expect": "2f3636918ddb57fe0b3569113f19c4b6c518c2843f8930f05db25cd55dee53c1"}),
+        json!({"id": "v-libsodium-box", "kind": "c15:box",
+            "snd": x("a8bdb9830f8790d242f66e04b11cc2a14c752a7b63c073f3c68e9adb151cc854"),
+            "rcp": json!({"c": "x25519", "pk": "07d0b594683bdb6af5f4eacb1a392687d580a58db196a752dca316dedb7d251c"}),
+            "msg": hx("hello there"), "nonce": hx("012345678912012345678912"), "muts": [], "allbits": false,
+            "expect": "848dc97d373f7aa2223b57780c60f7731cc8721d567baa8f2b5583"}),
+        json!({"id": "v-libsodium-seal", "kind": "c15:seal",
+            "rcp": x("18c739b1318886e6489d39cb8be20818e9405963d962162a27c3c329c128e673"), "msg": "",
+            "ct": "ed443c0377a579857f2f00543e0da0f2585b6119cd9e43c871e4f1114c7ce9050ba8811edf39d257bbeec0d423a0a7ff98d424fbfa9d52e0c5b3f674738f75d8e727f5526296482fd0fd013d71d50ce4ce5ebe9c2fa1c230298419a9",
+            "expect_open": true, "muts": [{"flip": 5}, {"take": 6}], "allbits": false}),
+    ]
+}
+
+/// all short inputs 0…40 (box) and 0…60 (sealed box) must give errors, never panics
+fn short_cases() -> Vec<Value> {
+    let k1 = json!({"c": "x25519", "sk": hex::encode([7u8; 32])});
+    let k2 = json!({"c": "x25519", "sk": hex::encode([9u8; 32])});
+    let box_muts: Vec<Value> = (0..=40).map(|n| json!({"raw": {"fill": 1, "salt": 3, "len": n}})).collect();
+    let seal_muts: Vec<Value> = (0..=60).map(|n| json!({"raw": {"fill": 2, "salt": 5, "len": n}})).collect();
+    vec![
+        json!({"id": "short-box", "kind": "c15:box", "snd": k1, "rcp": k2, "msg": "", "nonce": hex::encode([0u8; 24]), "muts": box_muts, "allbits": true}),
+        json!({"id": "short-seal", "kind": "c15:seal", "eph": k1, "rcp": k2, "msg": "", "muts": seal_muts, "allbits": true}),
+    ]
+}
+
+/// every curve × every target × both modes once (the full product the property quantifies over), fixed simple identifiers
+fn product_cases(r: &mut Rng) -> Vec<Value> {
+    let mut out = vec![];
+    for curve in CURVES {
+        for target in TARGETS {
+            for mode in ["es", "1pu"] {
+                let tag = if mode == "1pu" && r.chance(1, 2) { hexs(&r.bytes(16)) } else { json!("") };
+                let mut case = json!({"id": format!("prod-{}-{}-{}", curve, target, mode), "kind": "c15:kdf", "mode": mode, "target": target,
+                    "eph": gen_key(r, curve), "snd": gen_key(r, curve), "rcp": gen_key(r, curve),
+                    "alg": hexs(r.pick(&ALGS).as_bytes()), "apu": hexs(b"Alice"), "apv": hexs(b"Bob"), "tag": tag});
+                let mut ps = vec![json!({"f": "apu", "v": hexs(b"Alicf")}), json!({"f": "apv", "v": hexs(b"Bo")}),
+                    json!({"f": "alg", "v": hexs(b"A128GCN")}), json!({"f": "rcp", "v": gen_key(r, curve)}), json!({"f": "eph", "v": gen_key(r, curve)})];
+                if mode == "1pu" {
+                    ps.push(json!({"f": "snd", "v": gen_key(r, curve)}));
+                    ps.push(json!({"f": "tag", "v": hexs(&r.bytes(17))}));
+                }
+                case["perturb"] = json!(ps);
+                out.push(case);
+            }
+        }
+    }
+    out
+}
+
+pub fn gen(r: &mut Rng, thorough: bool, count: Option<usize>) -> Vec<Value> {
+    let mut out = corpus();
+    out.extend(short_cases());
+    out.extend(product_cases(r));
+    let n = count.unwrap_or(if thorough { 6000 } else { 300 });
+    for i in 0..n {
+        let mut rr = r.fork();
+        let id = format!("g{}", i);
+        out.push(match i % 10 {
+            0..=6 => gen_kdf(&mut rr, id),
+            7 | 8 => gen_box(&mut rr, id, thorough),
+            _ => gen_seal(&mut rr, id, thorough),
+        });
+    }
+    out
+}
+
+pub fn exec(case: &Value, _tag: &str) -> Value {
+    match case["kind"].as_str().unwrap_or("") {
+        "c15:kdf" => exec_kdf(case),
+        "c15:box" => exec_box(case),
+        "c15:seal" => exec_seal(case),
+        k => json!({"out": {"err": format!("unknown kind {}", k)}}),
+    }
 }
